@@ -184,7 +184,10 @@ fn add_types_recursive(
 ) {
     #[cfg(wgsl_to_wgpu_verif)]
     crate::verif_hooks::tick_type();
-    types.insert(ty);
+    // Types are shared, so only expand each type once.
+    if !types.insert(ty) {
+        return;
+    }
 
     match &module.types[ty].inner {
         naga::TypeInner::Pointer { base, .. } => add_types_recursive(types, module, *base),
